@@ -692,8 +692,8 @@ Qed.
 Close Scope Z_scope.
 (** * DBMateFile.StmtDecls returns the up section unchanged (under a decidable line condition) *)
 
-Lemma lines_acc_line a : forall r cur, ~ In 10%N a ->
-  lines_acc (a ++ 10%N :: r) cur = drop_cr (rev cur ++ a) :: lines_acc r [].
+Lemma ulines_acc_line a : forall r cur, ~ In 10%N a ->
+  ulines_acc (a ++ 10%N :: r) cur = drop_cr (rev cur ++ a) :: ulines_acc r [].
 Proof.
   induction a as [|x a IH]; intros r cur H.
   - simpl. rewrite app_nil_r. reflexivity.
@@ -722,7 +722,7 @@ Proof.
     exists (x :: a), r. split; [reflexivity|]. intros [E|E]; [congruence|exact (Ha E)].
 Qed.
 
-(** [U] is a sequence of complete lines *)
+(** [U] is a sequence of complete ulines *)
 Definition complete (U : bytes) : Prop := U = [] \/ exists U', U = U' ++ [10%N].
 
 Lemma complete_split U : complete U -> U <> [] ->
@@ -744,9 +744,9 @@ Proof.
   - rewrite E. rewrite app_length. simpl. lia.
 Qed.
 
-Lemma lines_complete_n n : forall U V, (length U <= n)%nat -> complete U -> ~ In 13%N U ->
-  lines (U ++ V) = lines U ++ lines V /\ join S_NL (lines U ++ [[]]) = U /\
-  (forall l, In l (lines U) -> exists a r, U = a ++ l ++ 10%N :: r).
+Lemma ulines_complete_n n : forall U V, (length U <= n)%nat -> complete U -> ~ In 13%N U ->
+  ulines (U ++ V) = ulines U ++ ulines V /\ join S_NL (ulines U ++ [[]]) = U /\
+  (forall l, In l (ulines U) -> exists a r, U = a ++ l ++ 10%N :: r).
 Proof.
   induction n as [|n IH]; intros U V Hl Hc Hcr.
   - destruct U; [|simpl in Hl; lia]. repeat split; try reflexivity. intros l [].
@@ -755,24 +755,67 @@ Proof.
     assert (Hcra : ~ In 13%N a) by (intros H; apply Hcr; rewrite E; apply in_or_app; left; exact H).
     assert (Hcrr : ~ In 13%N r) by (intros H; apply Hcr; rewrite E; apply in_or_app; right; right; exact H).
     destruct (IH r V) as (I1 & I2 & I3); [lia|exact Hcr'|exact Hcrr|].
-    unfold lines in *. rewrite E. rewrite <- app_assoc. simpl app.
-    rewrite !lines_acc_line by exact Ha. simpl rev. simpl app. rewrite drop_cr_id by exact Hcra.
+    unfold ulines in *. rewrite E. rewrite <- app_assoc. simpl app.
+    rewrite !ulines_acc_line by exact Ha. simpl rev. simpl app. rewrite drop_cr_id by exact Hcra.
     split; [rewrite I1; reflexivity|]. split.
-    + simpl app. destruct (lines_acc r [] ++ [[]]) as [|y ys] eqn:Ey.
-      * destruct (lines_acc r []); discriminate.
+    + simpl app. destruct (ulines_acc r [] ++ [[]]) as [|y ys] eqn:Ey.
+      * destruct (ulines_acc r []); discriminate.
       * change (join S_NL (a :: y :: ys)) with (a ++ S_NL ++ join S_NL (y :: ys)). rewrite I2. reflexivity.
     + intros l [<-|Hin].
       * exists [], r. reflexivity.
       * destruct (I3 l Hin) as (a' & r' & ->). exists (a ++ 10%N :: a'), r'. rewrite <- app_assoc. reflexivity.
 Qed.
 
-Lemma lines_complete U V : complete U -> ~ In 13%N U ->
-  lines (U ++ V) = lines U ++ lines V /\ join S_NL (lines U ++ [[]]) = U.
-Proof. intros Hc Hr. destruct (lines_complete_n (length U) U V (le_n _) Hc Hr) as (H1 & H2 & _). auto. Qed.
+Lemma ulines_complete U V : complete U -> ~ In 13%N U ->
+  ulines (U ++ V) = ulines U ++ ulines V /\ join S_NL (ulines U ++ [[]]) = U.
+Proof. intros Hc Hr. destruct (ulines_complete_n (length U) U V (le_n _) Hc Hr) as (H1 & H2 & _). auto. Qed.
+
+
+(** the split with bufio's token limit agrees with the unlimited one on short complete text *)
+Lemma lines_acc_line a : forall r cur cnt, ~ In 10%N a -> (cnt + N.of_nat (length a) <= MAX_LINE)%N ->
+  lines_acc (a ++ 10%N :: r) cur cnt = drop_cr (rev cur ++ a) :: lines_acc r [] 0.
+Proof.
+  induction a as [|x a IH]; intros r cur cnt H Hb.
+  - simpl. rewrite app_nil_r. reflexivity.
+  - cbn [app lines_acc]. destruct (N.eqb x 10) eqn:E; [apply N.eqb_eq in E; subst; exfalso; apply H; left; reflexivity|].
+    assert ((MAX_LINE <=? cnt)%N = false) as ->.
+    { apply N.leb_gt. cbn [length] in Hb. lia. }
+    rewrite IH; [|intros Hin; apply H; right; exact Hin|cbn [length] in Hb; lia].
+    simpl. rewrite <- app_assoc. reflexivity.
+Qed.
+
+Lemma lines_short_n n : forall U V, (length U <= n)%nat -> complete U -> ~ In 13%N U -> short U = true ->
+  lines (U ++ V) = ulines U ++ lines V.
+Proof.
+  induction n as [|n IH]; intros U V Hl Hc Hcr Hs.
+  - destruct U; [reflexivity|simpl in Hl; lia].
+  - destruct U as [|x U0] eqn:EU; [reflexivity|]. rewrite <- EU in *.
+    destruct (complete_split U Hc) as (a & r & E & Ha & Hcr' & Hlen); [rewrite EU; discriminate|].
+    assert (Hcra : ~ In 13%N a) by (intros H; apply Hcr; rewrite E; apply in_or_app; left; exact H).
+    assert (Hcrr : ~ In 13%N r) by (intros H; apply Hcr; rewrite E; apply in_or_app; right; right; exact H).
+    assert (Hu : ulines U = a :: ulines r).
+    { rewrite E. unfold ulines. rewrite ulines_acc_line by exact Ha. cbn [rev app]. rewrite drop_cr_id by exact Hcra. reflexivity. }
+    unfold short in Hs. rewrite Hu in Hs. cbn [forallb] in Hs. apply andb_true_iff in Hs as [Hsa Hsr].
+    apply N.leb_le in Hsa.
+    rewrite Hu. rewrite E. rewrite <- app_assoc. cbn [app]. unfold lines at 1.
+    rewrite lines_acc_line; [|exact Ha|lia]. cbn [rev app]. rewrite drop_cr_id by exact Hcra.
+    fold (lines (r ++ V)). rewrite (IH r V); [reflexivity|lia|exact Hcr'|exact Hcrr|exact Hsr].
+Qed.
+Lemma lines_short U V : complete U -> ~ In 13%N U -> short U = true -> lines (U ++ V) = ulines U ++ lines V.
+Proof. intros. eapply lines_short_n; eauto. Qed.
+
+(** a short line followed by a newline *)
+Lemma lines_cons a r : ~ In 10%N a -> ~ In 13%N a -> (N.of_nat (length a) <= MAX_LINE)%N ->
+  lines (a ++ 10%N :: r) = a :: lines r.
+Proof.
+  intros Ha Hr Hb. unfold lines. rewrite lines_acc_line by (auto; lia). cbn [rev app].
+  rewrite drop_cr_id by exact Hr. reflexivity.
+Qed.
 
 (** no line of the up section is taken for a pragma, no carriage return *)
 Definition dbmate_line_ok (l : bytes) : bool := negb (has_prefix l S_DBMATE) && negb (re_dbmate_pragma l).
-Definition dbmate_ok (U : bytes) : bool := forallb dbmate_line_ok (lines U) && negb (existsb (N.eqb 13) U).
+Definition dbmate_ok (U : bytes) : bool :=
+  forallb dbmate_line_ok (ulines U) && negb (existsb (N.eqb 13) U) && short U.
 
 Lemma dbmate_loop_good : forall ls acc rest, forallb dbmate_line_ok ls = true ->
   dbmate_loop (ls ++ rest) true acc = dbmate_loop rest true (rev ls ++ acc).
@@ -787,30 +830,30 @@ Qed.
 Theorem dbmate_text_up U D : complete U -> dbmate_ok U = true ->
   dbmate_text (S_DBMATE_UP ++ U ++ S_DBMATE_DOWN ++ D) = U.
 Proof.
-  intros Hc Hok. unfold dbmate_ok in Hok. apply andb_true_iff in Hok as [Hl Hcr].
+  intros Hc Hok. unfold dbmate_ok in Hok. apply andb_true_iff in Hok as [Hok Hsh]. apply andb_true_iff in Hok as [Hl Hcr].
   assert (Hcr' : ~ In 13%N U).
   { rewrite negb_true_iff in Hcr. intros Hin. assert (existsb (N.eqb 13) U = true); [|congruence].
     apply existsb_exists. exists 13%N. split; [exact Hin|reflexivity]. }
   unfold dbmate_text.
   assert (E : lines (S_DBMATE_UP ++ U ++ S_DBMATE_DOWN ++ D) =
-              (S_DBMATE ++ S_up) :: lines U ++ [] :: (S_DBMATE ++ S_down) :: lines D).
+              (S_DBMATE ++ S_up) :: ulines U ++ [] :: (S_DBMATE ++ S_down) :: lines D).
   { unfold S_DBMATE_UP, S_DBMATE_DOWN.
     replace ((S_DBMATE ++ [117; 112; 10]%N) ++ U ++ ([10%N] ++ S_DBMATE ++ [100; 111; 119; 110; 10]%N) ++ D)
       with ((S_DBMATE ++ S_up) ++ 10%N :: (U ++ ([] ++ 10%N :: ((S_DBMATE ++ S_down) ++ 10%N :: D))))
       by (unfold S_up, S_down; repeat (rewrite <- app_assoc; simpl); reflexivity).
-    unfold lines at 1. rewrite lines_acc_line by (vm_compute; intuition discriminate).
-    fold (lines (U ++ [] ++ 10%N :: (S_DBMATE ++ S_down) ++ 10%N :: D)).
-    destruct (lines_complete U ([] ++ 10%N :: (S_DBMATE ++ S_down) ++ 10%N :: D) Hc Hcr') as [-> _].
-    unfold lines at 2. rewrite lines_acc_line by (intros []). rewrite lines_acc_line by (vm_compute; intuition discriminate).
+    rewrite lines_cons by (vm_compute; intuition discriminate).
+    rewrite (lines_short U _ Hc Hcr' Hsh).
+    rewrite lines_cons by (vm_compute; intuition discriminate).
+    rewrite lines_cons by (vm_compute; intuition discriminate).
     reflexivity. }
   rewrite E.
-  change (dbmate_loop ((S_DBMATE ++ S_up) :: lines U ++ [] :: (S_DBMATE ++ S_down) :: lines D) false [])
-    with (dbmate_loop (lines U ++ [] :: (S_DBMATE ++ S_down) :: lines D) true []).
+  change (dbmate_loop ((S_DBMATE ++ S_up) :: ulines U ++ [] :: (S_DBMATE ++ S_down) :: lines D) false [])
+    with (dbmate_loop (ulines U ++ [] :: (S_DBMATE ++ S_down) :: lines D) true []).
   rewrite dbmate_loop_good by exact Hl.
-  change (dbmate_loop ([] :: (S_DBMATE ++ S_down) :: lines D) true (rev (lines U) ++ []))
-    with (rev ([] :: rev (lines U) ++ [])).
+  change (dbmate_loop ([] :: (S_DBMATE ++ S_down) :: lines D) true (rev (ulines U) ++ []))
+    with (rev ([] :: rev (ulines U) ++ [])).
   rewrite app_nil_r. simpl rev. rewrite rev_involutive.
-  destruct (lines_complete U [] Hc Hcr') as [_ H2]. exact H2.
+  destruct (ulines_complete U [] Hc Hcr') as [_ H2]. exact H2.
 Qed.
 
 Lemma tool_up_complete p : complete (tool_up p).
@@ -831,4 +874,46 @@ Proof.
   intros Hall Hok. unfold read, dbmate_content.
   rewrite (dbmate_text_up (tool_up p) (tool_down p) (tool_up_complete p) Hok).
   exact (tool_up_roundtrip p Hall).
+Qed.
+
+(** * bufio.Scanner's token limit: a line of more than MAX_LINE bytes ends the split *)
+Lemma lines_acc_long a : forall r cur cnt, ~ In 10%N a ->
+  (MAX_LINE + 1 <= cnt + N.of_nat (length a))%N -> (cnt <= MAX_LINE)%N ->
+  lines_acc (a ++ r) cur cnt = [].
+Proof.
+  induction a as [|x a IH]; intros r cur cnt H Hb Hc.
+  - cbn [length] in Hb. lia.
+  - cbn [app lines_acc]. destruct (N.eqb x 10) eqn:E; [apply N.eqb_eq in E; subst; exfalso; apply H; left; reflexivity|].
+    destruct (MAX_LINE <=? cnt)%N eqn:El; [reflexivity|]. apply N.leb_gt in El.
+    apply IH; [intros Hin; apply H; right; exact Hin|cbn [length] in Hb; lia|lia].
+Qed.
+
+(** the DBMate and Goose readers lose every statement from a too-long line on *)
+Theorem long_line_refuted : forall long,
+  ~ In 10%N long -> (MAX_LINE + 1 <= N.of_nat (length long))%N ->
+  let up := [83;69;76;69;67;84;32;49;59;10]%N ++ long ++ [10;83;69;76;69;67;84;32;50;59;10]%N in  (* "SELECT 1;\n" long "\nSELECT 2;\n" *)
+  dbmate_text (S_DBMATE_UP ++ up ++ S_DBMATE_DOWN) = [83;69;76;69;67;84;32;49;59]%N
+  /\ goose_text (S_GOOSE_UP ++ up ++ S_GOOSE_DOWN)
+     = Some (join S_NL [S_DELIM_DIRECTIVE ++ GOOSE_DELIM; []; [83;69;76;69;67;84;32;49;59]%N; GOOSE_DELIM]).
+Proof.
+  intros long Hn Hl up.
+  assert (Ed : lines (S_DBMATE_UP ++ up ++ S_DBMATE_DOWN) = [S_DBMATE ++ S_up; [83;69;76;69;67;84;32;49;59]%N]).
+  { unfold up, S_DBMATE_UP.
+    replace ((S_DBMATE ++ [117; 112; 10]%N) ++ ([83;69;76;69;67;84;32;49;59;10]%N ++ long ++ [10;83;69;76;69;67;84;32;50;59;10]%N) ++ S_DBMATE_DOWN)
+      with ((S_DBMATE ++ S_up) ++ 10%N :: ([83;69;76;69;67;84;32;49;59]%N ++ 10%N :: (long ++ ([10;83;69;76;69;67;84;32;50;59;10]%N ++ S_DBMATE_DOWN))))
+      by (unfold S_up; repeat (rewrite <- app_assoc; simpl); reflexivity).
+    rewrite lines_cons by (vm_compute; intuition discriminate).
+    rewrite lines_cons by (vm_compute; intuition discriminate).
+    unfold lines. rewrite lines_acc_long; [reflexivity|exact Hn|lia|vm_compute; discriminate]. }
+  assert (Eg : lines (S_GOOSE_UP ++ up ++ S_GOOSE_DOWN) = [S_GOOSE ++ [32;85;112]%N; [83;69;76;69;67;84;32;49;59]%N]).
+  { unfold up, S_GOOSE_UP.
+    replace ((S_GOOSE ++ [32; 85; 112; 10]%N) ++ ([83;69;76;69;67;84;32;49;59;10]%N ++ long ++ [10;83;69;76;69;67;84;32;50;59;10]%N) ++ S_GOOSE_DOWN)
+      with ((S_GOOSE ++ [32;85;112]%N) ++ 10%N :: ([83;69;76;69;67;84;32;49;59]%N ++ 10%N :: (long ++ ([10;83;69;76;69;67;84;32;50;59;10]%N ++ S_GOOSE_DOWN))))
+      by (repeat (rewrite <- app_assoc; simpl); reflexivity).
+    rewrite lines_cons by (vm_compute; intuition discriminate).
+    rewrite lines_cons by (vm_compute; intuition discriminate).
+    unfold lines. rewrite lines_acc_long; [reflexivity|exact Hn|lia|vm_compute; discriminate]. }
+  split.
+  - unfold dbmate_text. rewrite Ed. reflexivity.
+  - unfold goose_text. rewrite Eg. reflexivity.
 Qed.
